@@ -1,6 +1,7 @@
 package exec
 
 import (
+	"time"
 	"fmt"
 	"runtime"
 	"go/constant"
@@ -61,6 +62,7 @@ type Exec struct {
 	Concrete   bool // concrete mode: no solver
 	MaxVisits  int
 	MaxSteps   int
+	Deadline   time.Time // zero: none
 	feasCache  map[feasKey]feasRes
 	asciiCache map[*smt.Term]bool
 	findingSeen map[string]int
@@ -945,6 +947,9 @@ func (x *Exec) step(s *State) (stepResult, []*State, stopPoint) {
 	ins := f.Block.Instrs[f.IP]
 	s.Steps++
 	x.Instrs++
+	if x.Instrs&0x3fff == 0 && !x.Deadline.IsZero() && time.Now().After(x.Deadline) {
+		unsupported("wall-clock limit of the job exceeded (%d instructions, %d states so far): bound too large for this tree", x.Instrs, x.StatesN)
+	}
 	if s.Steps > x.MaxSteps {
 		x.addFinding(s, "unwind", fmt.Sprintf("path exceeds %d instructions", x.MaxSteps), "", s.Model, s.Model == nil)
 		return stepDead, nil, stopPoint{}
